@@ -344,9 +344,12 @@ class EditableModule(object):
         # copy the tensors and require them to be differentiable
         copy_tensors0 = [tensor.clone().detach().requires_grad_() for tensor in all_tensors]
         copy_tensors = copy.copy(copy_tensors0)
-        _set_tensors(self, copy_tensors)
 
         try:
+            # (inside the try block: if the copies cannot all be put into the
+            # object, the ones already put are replaced by the originals again)
+            _set_tensors(self, copy_tensors)
+
             # run the method and see which one has the gradients
             output = method(*args, **kwargs)
             if not isinstance(output, torch.Tensor):
@@ -388,6 +391,7 @@ def _traverse_obj(obj, prefix, action, crit, max_depth=20, exception_ids=None):
         # invokes of _get_tensors without exception_ids argument
         exception_ids = set()
 
+    assignable = True
     if isinstance(obj, torch.nn.Module):
         generators = [obj._parameters.items(), obj._modules.items()]
         name_format = "{prefix}{key}"
@@ -400,6 +404,10 @@ def _traverse_obj(obj, prefix, action, crit, max_depth=20, exception_ids=None):
         generators = [obj.items() if isinstance(obj, dict) else enumerate(obj)]
         name_format = "{prefix}[{key}]"
         objdicts = [obj]
+        # the elements of a container without item assignment (tuple, set, ...)
+        # cannot be replaced, so they are selected neither by the collecting
+        # nor by the writing traversal (mutable objects inside are still visited)
+        assignable = hasattr(obj, "__setitem__")
     else:
         raise RuntimeError("The object must be iterable or keyable")
 
@@ -407,7 +415,8 @@ def _traverse_obj(obj, prefix, action, crit, max_depth=20, exception_ids=None):
         for key, elmt in generator:
             name = name_format.format(prefix=prefix, key=key)
             if crit(elmt):
-                action(elmt, name, objdict, key)
+                if assignable:
+                    action(elmt, name, objdict, key)
                 continue
 
             hasdict = hasattr(elmt, "__dict__")
